@@ -13,6 +13,8 @@
      tenc ((pid eid lang x<bytes>) ...) -> (ok x<bytes>) | panic       M_encode_table
      best x<bytes>                   -> err | panic | none | (best i)  M_decode_table_bytes + M_getbest
      install HIGH                    -> ((pid eid lang) ...)           M_installcmap_keys
+     getsub P E (r0 ... r255) x<bytes> -> err | panic | (bytes x..) | (map (k g) ...)
+                                        M_get_sub with macrune c = r[c mod 256]
 *)
 let sx_pairs (x : sx) : (n * n) list =
   List.map (fun p -> match p with L [k; g] -> (sx_n k, sx_n g) | _ -> failwith "bad pair") (lst x)
@@ -89,6 +91,16 @@ let () = main_loop (fun c ->
         | Err -> A "none"
         | Panic -> A "panic"
         | OutOfFuel -> A "fuel")
+     | Err -> A "err"
+     | Panic -> A "panic"
+     | OutOfFuel -> A "fuel")
+  | [A "getsub"; p; e; tbl; data] ->
+    let arr = Array.of_list (List.map sx_n (lst tbl)) in
+    if Array.length arr <> 256 then failwith "bad rune table" else
+    let macrune c = arr.((int_of_n c) land 255) in
+    (match m_get_sub macrune ((sx_n p, sx_n e), N0) (sx_bytes data) with
+     | Ok (SubBytes d) -> L [A "bytes"; A (hex_of_bytes d)]
+     | Ok (SubMap m) -> L (A "map" :: pairs_sx m)
      | Err -> A "err"
      | Panic -> A "panic"
      | OutOfFuel -> A "fuel")
